@@ -326,6 +326,7 @@ bool readFlag(std::istream &os){
     }else{
         char cflag;
         os.read(&cflag, sizeof(char));
+        if (os.fail()) throw std::runtime_error("ERROR: unexpected end of the stream (truncated or corrupt binary file)");
         return (cflag == 'y');
     }
 }
@@ -361,6 +362,7 @@ void readVector(std::istream &is, std::vector<VecType> &x){
         for(auto &i : x) is >> i;
     }else{
         is.read((char*) x.data(), x.size() * sizeof(VecType));
+        if (is.fail()) throw std::runtime_error("ERROR: unexpected end of the stream (truncated or corrupt binary file)");
     }
 }
 
@@ -396,6 +398,7 @@ Val readNumber(std::istream &is){
         is >> v;
     }else{
         is.read((char*) &v, sizeof(Val));
+        if (is.fail()) throw std::runtime_error("ERROR: unexpected end of the stream (truncated or corrupt binary file)");
     }
     return v;
 }
